@@ -55,8 +55,10 @@ vars == <<st, n>>
 
 Range(k) == 1..k
 SeqSet(s) == {s[i] : i \in Range(Len(s))}
-Dim(k) == IF k = "S2" THEN 2 ELSE 1
-Cls(k) == IF k = "D1" THEN "DiffuseDroplet" ELSE "SphericalDroplet"
+\* kinds = data layouts: S1 / S2 spherical in one / two dimensions, D1 diffuse in one dimension, P2a / P2b perturbed
+\* two-dimensional droplets with two / four amplitudes (ONE class, one dimension, two layouts)
+Dim(k) == IF k \in {"S2", "P2a", "P2b"} THEN 2 ELSE 1
+Cls(k) == IF k = "D1" THEN "DiffuseDroplet" ELSE IF k \in {"P2a", "P2b"} THEN "PerturbedDroplet2D" ELSE "SphericalDroplet"
 
 ---------------------------------------------------------------------------
 (* exact rationals <<num, den>>, den > 0, normalised *)
